@@ -110,6 +110,27 @@ def fail_window(x):
     return ['down %d' % x, 'detect 1', 'tick 10', 'detect 2', 'handle 9', 'meta 3']
 
 
+# "delayed duplicate commit across a later migration": the commit call M<k> (k-th commit_migration call of the case) of a finished
+# migration is HELD while the round's other calls (and a duplicate) go through and the migration is committed normally; then a LATER
+# migration over exactly the same ranges is started under a newer epoch (scale back in) - or a failover re-issues the epoch of the still
+# uncommitted migration - and the held stale commit is delivered.  It must be answered MIGRATION_TASK_NOT_FOUND and change nothing.
+def stale_scale_in(held, other_faults):
+    f = dict(other_faults)
+    f['M%d' % held] = 'delay'
+    fs = ','.join('%s:%s' % (k, f[k]) for k in sorted(f, key=str))
+    steps = [SHAPE_A_PRE, 'mig 1', 'mig 2', 'meta 2', 'scaledown 4', 'replay M%d' % held] + TAIL + ['replay M%d' % held]
+    return 'C07 4 %s - ; %s' % (fs, ' ; '.join(steps))
+
+
+def stale_failover(side, dup_tail):
+    # every commit call of the round fails (the first is held), so the migrations stay pending; then the source / destination proxy of
+    # the held migration is failed over (its migration is re-issued under a new epoch) and the stale commit is delivered
+    fs = 'M1:delay,M2:drop,M3:drop,M4:drop'
+    steps = [SETUP4 + ' ; addproxy 5 ; addcluster 4 ; meta 1 ; addnodes 4 ; migrate ; meta 1 ; finishmig', 'mig 1',
+             'failoverheld M1 %s' % side, 'replay M1'] + TAIL + (['replay M1'] if dup_tail else [])
+    return 'C07 5 %s - ; %s' % (fs, ' ; '.join(steps))
+
+
 # boundaries: shape A: set-up rounds use 0..25, the faulty window (mig + meta) is 26..57 in a fault-free run
 A_LO, A_HI = 26, 58
 B_LO, B_HI = 0, 48
@@ -128,6 +149,17 @@ def gen_cases(chk):
     cases.append(('corpus', shape_a({27: 'noreply'}, [])))
     cases.append(('corpus', shape_a({30: 'delay', 31: 'delay'}, [], tail_extra=['replay 30', 'replay 31'])))
     cases.append(('corpus', shape_b({14: 'noreply', 20: 'delay', 23: 'crash'}, [(30, 'replay', 20)], 2)))
+    for held in (1, 2):
+        cases.append(('stale-commit', stale_scale_in(held, {})))
+        cases.append(('stale-commit', stale_scale_in(held, {'M%d' % (3 - held): 'dup'})))
+        cases.append(('stale-commit', stale_scale_in(held, {'M3': 'dup'})))
+    for side in ('src', 'dst'):
+        cases.append(('stale-commit', stale_failover(side, False)))
+        cases.append(('stale-commit', stale_failover(side, True)))
+    if chk.tier == 'thorough':
+        for held in (1, 2, 3):
+            for k in KINDS:
+                cases.append(('stale-commit', stale_scale_in(held, {'M%d' % (1 + held % 3): k})))
     # exhaustive: every single-fault position of the 2-round window (mig-sync + meta-sync) of the 4-proxy cluster, every fault kind
     for pos in range(A_LO, A_HI):
         for k in KINDS:
@@ -330,13 +362,21 @@ def monitor(case, prog, segs, z):
                 if t.startswith('p.'):
                     reported_in_tail.add(t.split('.')[2])
         pend = set(last.get('pend', '-').split(',')) - {'-'}
-        for k in sorted(reported_in_tail):
+        pend_at_quiet = set()
+        for sq in reversed(segs[:qpos[-1]]):
+            if 'pend=' in sq:
+                pend_at_quiet = set(kv(sq).get('pend', '-').split(',')) - {'-'}
+                break
+        for k in sorted(reported_in_tail & pend_at_quiet):
             if k in pend:
                 bad.append('migration %s was reported finished during the fault-free tail and is still pending after it' % k)
             if commits_ok.get(k, 0) != 1:
                 bad.append('migration %s reported finished during the fault-free tail: %d successful commits' % (k, commits_ok.get(k, 0)))
     if z.get('fm', '-') not in ('-', 'done'):
         bad.append('set-up: the real migration handshake did not finish (%s)' % z.get('fm'))
+    if z.get('cmis', 'ok') != 'ok':
+        bad.append('the broker accepted a commit for a (ranges, epoch) that was not the pending entry it removed, or a rejected commit changed the '
+                   'pending set: %s' % z.get('cmis'))
     if z.get('order', 'ok') != 'ok':
         bad.append('migration-sync path pushed post-commit metadata to the source before the destination: %s' % z.get('order'))
     # ---- failure detection / handling clauses (C07F cases) ----
@@ -466,8 +506,8 @@ def run(chk):
             stats['crashed_rounds'] += 1 if d.get('cr') == '1' else 0
         if re.search(r'c\.\d+\.ok', o):
             stats['cases_with_migration_commit'] += 1
-        reached = [int(x.split(':')[0]) for x in re.findall(r'(\d+:[a-z]+)', c.split(';')[0])]
-        nontrivial = kind == 'corpus' or any(x < nb for x in reached)
+        reached = [int(x.split(':')[0]) for x in re.findall(r'(?<![M\d])(\d+:[a-z]+)', c.split(';')[0])]
+        nontrivial = kind in ('corpus', 'stale-commit') or any(x < nb for x in reached)
         if nontrivial and kind != 'corpus':
             stats['faults_reached'] += 1
         chk.count(c, nontrivial)
